@@ -12,6 +12,7 @@ import TraitsVerif.Props.C04
 import TraitsVerif.Props.C12
 import TraitsVerif.Props.C17
 import TraitsVerif.Props.C02
+import TraitsVerif.Props.C10
 import TraitsVerif.Lemmas.Effects
 import TraitsVerif.Generated.Effects
 namespace TraitsVerif.Props.C19
@@ -174,6 +175,24 @@ theorem C19_handler_raises (E : Model.Attr.Env)
     (t : Model.Attr.TraitCore) (h : List Model.Attr.Op) (s : Model.Attr.OSt) :
     Model.Attr.run E t s h = Model.Attr.run { E with handler := g } t s h :=
   C02.C02_handler_exception E g q q' t h s
+
+/-! ### Default factory / `_name_default` raising -/
+
+/-- A default factory or `_name_default` method that raises on a read: the
+exception reaches the caller (unchanged, except that an AttributeError becomes
+the UserWarning-as-error when warnings are errors — `surfaced`), nothing is
+stored, no handler and no post_setattr hook is called; the only change is the
+recorded factory call, so the next read calls the factory again (C10's model of
+`getattr_trait` / `default_value_for`). -/
+theorem C19_default_raises (E : Model.Attr.Env) (t : Model.Attr.TraitCore) (s : Model.Attr.OSt) (e : Exc)
+    (hk : t.kind = .trait) (hu : Model.Attr.callsUser t) (hs : s.slot = none)
+    (hr : E.factory (t.dv.getD Model.Attr.noneId) s.ctx.fcalls.length (Model.Attr.factoryArg t s.self) = .error e) :
+    (Model.Attr.step E t s .get).1 = { exc := some (Model.Attr.surfaced E e) }
+    ∧ (Model.Attr.step E t s .get).2.slot = none
+    ∧ (Model.Attr.step E t s .get).2.ctx.log = s.ctx.log
+    ∧ (Model.Attr.step E t s .get).2.ctx.postLog = s.ctx.postLog :=
+  have h := C10.C10_default_raises E t s e hk hu hs hr
+  ⟨h.1, h.2.2.1, h.2.2.2.1, h.2.2.2.2.1⟩
 
 /-! ### Validation precedes mutation precedes notification (source order)
 
